@@ -1,5 +1,5 @@
 (* Property C07 -- statements only; proofs in Proofs/C07Search.v and Proofs/C07.v *)
-From Coq Require Import List String NArith.
+From Coq Require Import List String NArith ZArith.
 From FV Require Import Base.Grammar Model.ReplaceM Model.SearchM Model.ConstraintM Proofs.C07Search Proofs.C07.
 Import ListNotations.
 
@@ -41,7 +41,7 @@ Print Assumptions C07_desc_includes_base_refuted.
 
 Theorem C07_lazy_refuted_when_selector_raises :
   let t0 := Node "<s>" [Node "<a>" []] in
-  let c := KOr [KExpr 0 []; KExpr 1 [("x", SItem (SRule "<a>") (IAt 5))]] in
+  let c := KOr [KExpr 0 []; KExpr 1 [("x", SItem (SRule "<a>") (IAt 5%Z))]] in
   let orc := [(0, [], [], OTrue)] in
   check_code t0 orc false c = VRaise /\ check_code t0 orc true c = VTrue.
 Proof. exact lazy_differs_when_selector_raises. Qed.
